@@ -33,6 +33,8 @@ TECHNIQUE = "enumeration of shipped contexts x schemes with Hypothesis-generated
 #: thorough tier: seed-dependent tasks are repeated under this many derived seeds (run.py); the listed task functions enumerate fixed domains
 THOROUGH_REPS = 8
 DETERMINISTIC_FNS = ('t_presets', 't_registry', 't_import_order')
+RULE += " Every shipped context lists the same schemes whatever module of the package is imported first (fresh interpreter per import order); the documented Django presets are the documented per-version contexts; plaintext-family schemes are tried with hostile passwords (disabled markers, RFC 2307 braces, crypt prefixes)."
+ASSUMPTIONS = [('passwords for catch-all schemes (plaintext family) ARE the hash: a case counts when no scheme listed earlier claims the text, the catch-all schemes being judged by their documented acceptance (plain_claims)' if a.startswith('passwords for catch-all scheme') or 'passwords for catch-all scheme' in a else a) for a in ASSUMPTIONS]
 
 APPS = ["custom_app_context", "django_context", "django10_context", "django14_context", "django16_context", "django110_context", "django21_context", "django31_context",
         "ldap_context", "ldap_nocrypt_context", "mysql_context", "mysql4_context", "mysql3_context", "phpass_context", "phpbb3_context", "postgres_context",
